@@ -601,6 +601,33 @@ def _step_to_event(step: dict) -> dict:
         raise ValueError(f"Unknown next step type: {step_type}")
 
 
+def get_actual_history(history: List[dict]) -> List[dict]:
+    """Applies the alterations recorded in a history of events, e.g. 'hide_prev_turn'.
+
+    Args:
+        history (List[dict]): The history of events.
+
+    Returns:
+        List[dict]: The history as the flows should see it.
+    """
+    actual_history = []
+    for event in history:
+        if event["type"] == "hide_prev_turn":
+            # we look up the last `UtteranceUserActionFinished` event and remove everything after
+            end = len(actual_history) - 1
+            while (
+                end > 0 and actual_history[end]["type"] != "UtteranceUserActionFinished"
+            ):
+                end -= 1
+
+            assert actual_history[end]["type"] == "UtteranceUserActionFinished"
+            actual_history = actual_history[0:end]
+        else:
+            actual_history.append(event)
+
+    return actual_history
+
+
 def compute_next_steps(
     history: List[dict],
     flow_configs: Dict[str, FlowConfig],
@@ -623,20 +650,7 @@ def compute_next_steps(
     )
 
     # First, we process the history and apply any alterations e.g. 'hide_prev_turn'
-    actual_history = []
-    for event in history:
-        if event["type"] == "hide_prev_turn":
-            # we look up the last `UtteranceUserActionFinished` event and remove everything after
-            end = len(actual_history) - 1
-            while (
-                end > 0 and actual_history[end]["type"] != "UtteranceUserActionFinished"
-            ):
-                end -= 1
-
-            assert actual_history[end]["type"] == "UtteranceUserActionFinished"
-            actual_history = actual_history[0:end]
-        else:
-            actual_history.append(event)
+    actual_history = get_actual_history(history)
 
     steps_history = []
     for event in actual_history:
@@ -708,7 +722,10 @@ def compute_context(history: List[dict]):
         "last_bot_message": None,
     }
 
-    for event in history:
+    # The context must be the one the flows see: the turns hidden by 'hide_prev_turn'
+    # do not contribute (otherwise an action result equal to a hidden value would not
+    # produce a `ContextUpdate` and the flows would keep reading a stale value).
+    for event in get_actual_history(history):
         if event["type"] == "ContextUpdate":
             context.update(event["data"])
 
